@@ -13,7 +13,7 @@ func init() {
 			"(R22.2) success is reported only after the broken ordered keys and the filtered-out / superseded operations were handed to the removal routines; " +
 			"(R22.3) the removal buffers grow by append (no indexed store beyond a fixed length); " +
 			"(R22.4) SetOperation writes only when the operation key does not exist yet (idempotence), test and write in one exclusive section of the pool's set lock; " +
-			"(R22.5) for a fact found again the superseded entry's operation (not the newly selected one) is queued for removal, the entry is cut out of the collected list and every remembered position above it is shifted down.; (R22.k) every leveldb key builder carries each of its parameters in full under its own prefix constant; (R22.j) jobs handed to a worker read only captured variables that the submitter does not assign again (no job works on a later batch/slot than the one it was created for)",
+			"(R22.5) for a fact found again the superseded entry's operation (not the newly selected one) is queued for removal, the entry is cut out of the collected list and every remembered position above it is shifted down.; (R22.k) every leveldb key builder carries each of its parameters in full under its own prefix constant; (R22.j) jobs handed to a worker read only captured variables that the submitter does not assign again (no job works on a later batch/slot than the one it was created for); (R22.7) the pool is scanned only for a limit of at least one and the result buffer is not sized by the caller's limit up front; (R22.8) reaching the limit does not cut the oldest-first scan off before newer operations of selected facts — R22.7's buffer clause and R22.8 are violated today, known findings",
 		NotDecided: "that the leveldb iteration order is insertion order ('most recently added'); the removal routines' own batching; cache coherence of the operation cache.",
 		Run:        runC22,
 	})
@@ -30,7 +30,15 @@ func runC22(c *Ctx) {
 	}
 	meta := "isaacdatabase.ReadFrameHeaderOperation(b)#0"
 	c.Rule("R22.1", "MustPass")
-	succ := c.SuccessReturns(parent)
+	all := c.SuccessReturns(parent)
+	// an empty answer for a zero limit is "at most L entries" too; everything else goes through the scan
+	var succ []ssa.Instruction
+	for _, r := range all {
+		if c.D(RetVal(r.(*ssa.Return), 0)) == "nil" && allOK(c.MustPass(parent, nil, []ssa.Instruction{r}, GCmp("limit", "<", "1"))) {
+			continue
+		}
+		succ = append(succ, r)
+	}
 	for _, r := range succ {
 		d := c.D(RetVal(r.(*ssa.Return), 0))
 		c.Report(parent, "result is the collected prefix of the buffer", c.InstrPos(r), d == "var:ops[:var:opsindex]", d)
@@ -40,10 +48,47 @@ func runC22(c *Ctx) {
 	c.MP(parent, "success: broken ordered keys removed", succ, 1, GOk("db.removeNewOperationOrdereds(*)"))
 	c.MP(parent, "success: filtered-out and superseded operations queued for removal", succ, 1, GOk("db.setRemoveNewOperations(ctx, height, var:removeops)"))
 	c.MP(parent, "success: iteration succeeded", succ, 1, GOk("*.Iter(*)"))
+	// R22.7: "at most L entries" for every L: the scan is entered only for L >= 1 (the first selected
+	// entry is stored before the limit is compared), and the result buffer is not sized by the caller's L
+	// before a single record was read
+	c.Rule("R22.7", "BoundsGuard")
+	c.MP(parent, "the pool is scanned only for a limit of at least one", c.CallsD(parent, "*.Iter(*)"), 1, GCmp("limit", ">=", "1"))
+	var pre []string
+	for _, in := range allInstrs(parent) {
+		if mk, ok := in.(*ssa.MakeSlice); ok && c.D(mk.Len) == "limit" {
+			pre = append(pre, c.Pos(mk.Pos()))
+		}
+	}
+	c.Report(parent, "the result buffer is not allocated by the caller's limit up front", parent.Pos(), len(pre) == 0,
+		"make([][2]util.Hash, limit) at "+strings.Join(pre, ", ")+": a huge limit panics (makeslice) or allocates before any record is read")
 	cb := c.ClosureWithStore(parent, "&var:ops[var:opsindex]")
 	if cb == nil {
 		return
 	}
+	// R22.8: "for a fact submitted several times the most recently added operation is chosen": the scan
+	// runs oldest first, so stopping at the limit must not cut off a newer operation of a selected fact
+	c.Rule("R22.8", "MustPass")
+	stops := c.ReturnsD(cb, 0, "false")
+	var atLimit []ssa.Instruction
+	for _, r := range stops {
+		if allOK(c.MustPass(cb, nil, []ssa.Instruction{r}, GCmp("var:opsindex", "==", "limit"), GCmp("var:opsindex", ">=", "limit"))) {
+			atLimit = append(atLimit, r)
+		}
+	}
+	oldestFirst := false
+	for _, it := range c.CallsD(parent, "*.Iter(*)") {
+		if c.D(CallArg(it, 2)) == "true" {
+			oldestFirst = true
+		}
+	}
+	for _, r := range atLimit {
+		c.Report(cb, "reaching the limit does not end the scan while newer operations of selected facts may follow", c.InstrPos(r), !oldestFirst,
+			"the oldest-first scan returns at opsindex == limit: a newer operation of an already selected fact is never seen and the older one is handed out")
+	}
+	if len(atLimit) == 0 {
+		c.floors["R22.8 stops at the limit (0 is fine: the scan covers the pool)"] = [2]int{0, 0}
+	}
+	c.Rule("R22.2", "MustPass")
 	c.Rule("R22.1", "MustPass")
 	col := c.StoresD(cb, "&var:ops[var:opsindex]")
 	c.MP(cb, "entry collected only for a decodable record", col, 1, GOk("isaacdatabase.ReadFrameHeaderOperation(b)"))
